@@ -1,15 +1,26 @@
 ----------------------------- MODULE ConvertGen -----------------------------
-(* Emits the cases of C02, one family per run. *)
+(* Emits the cases of C02, one family per run.  The family is cut into slices (one initial state each) only so   *)
+(* that TLC's workers share the enumeration.                                                                     *)
 EXTENDS ConvertCases, Json
-CONSTANT Family
-VARIABLE x
-Init ==
-  CASE Family = "nested" -> x \in {[r |-> r, ne |-> NoEmptyValues(<<Flatten(Dot, r)>>), shape |-> KeysOf(Flatten(Dot, r)),
-                                    dom |-> InLawDomain(Dot, r)] : r \in NestedRecs}
-    [] Family = "sepkeys" -> x \in {[r |-> r, ne |-> TRUE, shape |-> KeysOf(Flatten(<<"|">>, r)), dom |-> FALSE] : r \in SepKeyRecs}
-    [] Family = "pairs" -> x \in Pairs
-    [] Family = "triples" -> x \in Triples
-    [] Family = "flags" -> x \in {[e |-> e, probe |-> Probe(e.probe)] : e \in Entries}
-Next == UNCHANGED x
-Emit == PrintT(ToJson(x))
+CONSTANTS Family, Slices
+VARIABLES x, p, go
+
+RECURSIVE H(_)
+H(v) == IF IsS(v) THEN (IF v[2] = "" THEN 1 ELSE 2)
+        ELSE IF IsA(v) THEN (5 + Len(v[2]) + 7 * (IF Len(v[2]) >= 1 THEN H(v[2][1]) ELSE 0) + 11 * (IF Len(v[2]) >= 2 THEN H(v[2][2]) ELSE 0)) % 1009
+        ELSE (3 + Len(v[2]) + 13 * (IF Len(v[2]) >= 1 THEN H(v[2][1][2]) + Len(v[2][1][1]) ELSE 0)
+                + 17 * (IF Len(v[2]) >= 2 THEN H(v[2][2][2]) + Len(v[2][2][1]) ELSE 0)) % 1009
+Nested(r) == [r |-> r, ne |-> NoEmptyValues(<<Flatten(Dot, r)>>), shape |-> KeysOf(Flatten(<<"|">>, r)), dom |-> InLawDomain(Dot, r)]
+Slots == CASE Family \in {"pairs", "triples"} -> Formats
+           [] Family \in {"nested", "sepkeys"} -> 0..(Slices - 1)
+           [] Family = "flags" -> {0}
+CasesFor(q) ==
+  CASE Family = "nested" -> {Nested(r) : r \in {rr \in NestedRecs : H(M(rr)) % Slices = q}}
+    [] Family = "sepkeys" -> {Nested(r) : r \in {rr \in SepKeyRecs : H(M(rr)) % Slices = q}}
+    [] Family = "pairs" -> PairsFrom(q)
+    [] Family = "triples" -> TriplesFrom(q)
+    [] Family = "flags" -> {[e |-> e, probe |-> Probe(e.probe)] : e \in Entries}
+Init == p \in Slots /\ go = FALSE /\ x = 0
+Next == ~go /\ go' = TRUE /\ p' = p /\ x' \in CasesFor(p)
+Emit == ~go \/ PrintT(ToJson(x))
 =============================================================================
